@@ -395,6 +395,14 @@ def run(ctx):
             r5.violation("push: %s after parse_alc_pkt" % model.short_callee(s.term.callee_path()), "session state touched before the packet was validated", s.loc)
     r5.floor(2, "session accesses")
 
+    # ---- R6 a rejected FDT instance does not shadow later valid copies ---------------------------------
+    r6 = ctx.rule("C04.R6", "a rejected packet leaves the receiver usable: an FDT instance receiver that ended in Error (corrupted / malformed "
+                            "instance) or Expired is released by Receiver::cleanup_fdt, so a later valid copy of the same instance id is accepted "
+                            "(decision table of the retain predicate over the instance states, shared with C17.R3)", "E3 decision table")
+    from . import c17
+    c17.fdt_retain_rule(ctx, r6)
+    r6.floor(4, "state scenarios")
+
 
 _req_cache = {}
 
